@@ -103,13 +103,13 @@ def run(ctx):
     F = core.import_flowcal()
     path = os.path.join(ctx.tmpdir, 'c20.fcs')
     seqs = [()] + [q for k in (1, 2, 3) for q in itertools.product(OPS, repeat=k)]
-    nsamples = 3 if ctx.tier == 'quick' else 150
+    nsamples = 6 if ctx.tier == 'quick' else 150
     ids = [('st', si, qi) for si in range(nsamples) for qi in range(len(seqs))]
     cache = {}
     for cid, rng in ctx.cases(ids):
         _, si, qi = cid
         srng = np.random.default_rng([ctx.seed, 20, si])
-        kind = ('int-be', 'int-le', 'float32', 'float64', 'int-nometa')[si % 5]
+        kind = ('int-be', 'int-le', 'float32', 'float64', 'int-nometa', 'int-handle')[si % 6]
         if kind.startswith('int'):
             spec = zoo.int_spec(srng, n=int(srng.integers(6, 30)), d=int(srng.integers(2, 5)))
             spec['byteord'] = '4,3,2,1' if kind != 'int-le' else '1,2,3,4'
@@ -121,7 +121,17 @@ def run(ctx):
         else:
             spec = zoo.float_spec(srng, n=int(srng.integers(6, 30)), d=int(srng.integers(2, 5)),
                                   dt='F' if kind == 'float32' else 'D')
-        s = zoo.write_and_load(F, spec, path)
+        if kind == 'int-handle':
+            # a sample loaded from an open file object (infile is documented as "str or file-like")
+            raw_, _lay = fcsgen.build(spec)
+            hpath = os.path.join(ctx.tmpdir, 'c20_handle.fcs')
+            with open(hpath, 'wb') as fh_:
+                fh_.write(raw_)
+            handle = open(hpath, 'rb')
+            s = F.io.FCSData(handle)
+        else:
+            handle = None
+            s = zoo.write_and_load(F, spec, path)
         seq = seqs[qi]
         ok_state = True
         for op in seq:
@@ -136,6 +146,8 @@ def run(ctx):
         d = dict(sample=kind, sequence='>'.join(seq) or 'loaded', shape=list(s.shape), dtype=str(s.dtype))
         ref = fp(s, ident=False)
         for how in DUPS:
+            if handle is not None and how.startswith('pickle'):
+                continue            # an open file object cannot be pickled by anyone: not part of the statement
             o = core.attempt(dup, s, how)
             ctx.counters['chk:equal'] += 1
             if not ctx.check(not o.raised, 'duplication-failed', cid, how=how, exc=core.exc_str(o.exc) if o.raised else None, **d):
